@@ -180,10 +180,10 @@ func tryReplay(prog *Program, ps *PropSpec, o *Obligation, repo, verif string) (
 		}
 	}
 	if driverName == "" {
+		if o.Status == "unknown" {
+			return false, ""
+		}
 		return false, "no replay driver registered for this obligation"
-	}
-	if o.Model == "" {
-		return false, "solver gave no model"
 	}
 	drv, err := loadDriver(verif, driverName)
 	if err != nil {
